@@ -28,8 +28,10 @@ use tracing_core::{span, Collect, Dispatch, Event, Interest, Level, LevelFilter,
 use tracing_log::{AsLog, AsTrace, LogTracer, NormalizeEvent};
 use vp_engine::{Isolation, Outcome, Property, Tier};
 
-const TARGETS: &[&str] = &["app", "app::db", "log", "ign", "ignored_crate::m", "xign", "dep::x::y", "dep::xy", "h", "hyper::proto", "", "tracing::span", "dep", "APP", "log::x"];
-const IGNORES: &[&str] = &["ign", "dep::x", "h", "app::db", "log"];
+const TARGETS: &[&str] = &["app", "app::db", "log", "ign", "ignored_crate::m", "xign", "dep::x::y", "dep::xy", "h", "hyper::proto", "", "tracing::span", "dep", "APP", "log::x", "dep::z", "app::zz", "hz", "ignore"];
+// contains nested prefixes (dep / dep::x, app / app::db, h / hyper) so that several entries can
+// cover the same target
+const IGNORES: &[&str] = &["ign", "dep::x", "h", "app::db", "log", "dep", "app", "hyper", "i"];
 
 fn level_of(rank: u8) -> Level {
     match rank {
@@ -131,7 +133,7 @@ enum Hint {
 enum TF {
     All,
     /// accepts the alphabet targets whose bit is set; other text iff the flag
-    Set(u16, bool),
+    Set(u32, bool),
     NotLog,
     OnlyLog,
 }
@@ -843,7 +845,7 @@ impl Property for C18 {
         let rec = (1u8..6, tgt, msg, optstr(), line, optstr(), route).prop_map(|(level, target, msg, file, line, module, route)| Rec { level, target, msg, file, line, module, route });
         let tf = prop_oneof![
             2 => Just(TF::All),
-            4 => (any::<u16>(), any::<bool>()).prop_map(|(m, o)| TF::Set(m, o)),
+            4 => (any::<u32>(), any::<bool>()).prop_map(|(m, o)| TF::Set(m, o)),
             1 => Just(TF::NotLog),
             1 => Just(TF::OnlyLog),
         ];
@@ -851,7 +853,7 @@ impl Property for C18 {
         let nrec = tier.pick(10usize, 16usize);
         let seg = (proptest::option::weighted(0.85, coll.clone()), proptest::collection::vec(rec, 1..nrec)).prop_map(|(coll, recs)| Seg { coll, recs });
         let bridge = (
-            proptest::collection::vec(0u8..IGNORES.len() as u8, 0..3),
+            proptest::collection::vec(0u8..IGNORES.len() as u8, 0..5),
             prop_oneof![3 => Just(5u8), 2 => 0u8..6],
             proptest::option::weighted(0.3, (0u8..4, coll)),
             proptest::collection::vec(seg, 1..5),
@@ -893,7 +895,7 @@ impl Property for C18 {
         }
     }
     fn rule(&self) -> String {
-        "one fresh process per case; half of the cases `bridge`: LogTracer built with 0-2 ignored prefixes and a generated log max level, 1-4 segments each with an optional scoped collector (level filter 0-5 x hint {none, same, higher} x target filter {all, subset of a 15-target alphabet, not \"log\", only \"log\"}) and optionally a global collector installed at a generated segment, 1-9 (thorough 15) records per segment (5 levels; targets from the alphabet incl. ignored prefixes, look-alikes, \"log\", arbitrary text; arbitrary message; file/line/module present or absent) through 4 routes {installed logger, log! macro, local LogTracer::new(), format_trace}; other half `emit`: generated log max level, <= 13 (thorough 23) ops {11 event macro call sites, 6 span call sites x new/enter/exit/record/drop over 3 slots, create-a-Dispatch-without-installing} then (80 %) a first installation {scoped, scoped-and-dropped, global, on another thread, with_default} followed by more ops; plus the complete enumeration of level / level-filter / metadata conversions. non-trivial: bridge = some record accepted and some rejected because of an ignored prefix or by its target only; emit = log-producing steps on both sides of the first installation; distinct by case".into()
+        "one fresh process per case; half of the cases `bridge`: LogTracer built with 0-4 ignored prefixes (from a set with nested ones) and a generated log max level, 1-4 segments each with an optional scoped collector (level filter 0-5 x hint {none, same, higher} x target filter {all, subset of a 19-target alphabet, not \"log\", only \"log\"}) and optionally a global collector installed at a generated segment, 1-9 (thorough 15) records per segment (5 levels; targets from the alphabet incl. ignored prefixes, look-alikes, \"log\", arbitrary text; arbitrary message; file/line/module present or absent) through 4 routes {installed logger, log! macro, local LogTracer::new(), format_trace}; other half `emit`: generated log max level, <= 13 (thorough 23) ops {11 event macro call sites, 6 span call sites x new/enter/exit/record/drop over 3 slots, create-a-Dispatch-without-installing} then (80 %) a first installation {scoped, scoped-and-dropped, global, on another thread, with_default} followed by more ops; plus the complete enumeration of level / level-filter / metadata conversions. non-trivial: bridge = some record accepted and some rejected because of an ignored prefix or by its target only; emit = log-producing steps on both sides of the first installation; distinct by case".into()
     }
     fn assumptions(&self) -> Vec<String> {
         vec![
